@@ -351,14 +351,17 @@ fn navigation(thorough: bool, seed: u64, rep: &mut Report) {
     rep.checks.push("C11: get_fragment / traversal / mapped iterators / key-based mapped lookups / TryFromJson offsets on parsed documents".into());
     rep.rule = "documents built from random token sequences that parse (nested arrays/objects, duplicate keys, empty containers, multi-byte text); every fragment index and every mapped offset is checked by re-parsing the source text of the code-map span; non-trivial = at least 3 fragments".into();
     let mut rng = Rng(seed.wrapping_mul(0x9E3779B97F4A7C15) | 1);
-    let mut docs: Vec<String> = vec!["{ \"0\": [null, null], \"1\": { \"foo\": 0, \"bar\": 1 }, \"0\": null }".into(), "[{}, [], {\"a\":{}} , [[]], \"\u{e9}\"]".into(), "{\"a\":{},\"b\":[{}],\"a\":1}".into()];
+    let mut docs: Vec<String> = vec!["{ \"0\": [null, null], \"1\": { \"foo\": 0, \"bar\": 1 }, \"0\": null }".into(), "[{}, [], {\"a\":{}} , [[]], \"\u{e9}\"]".into(), "{\"a\":{},\"b\":[{}],\"a\":1}".into(),
+        // a key occurring three to six times, other keys and containers of every shape in between
+        "{\"a\":[],\"a\":{\"a\":1},\"a\":[{}],\"b\":2,\"a\":null}".into(),
+        "[{\"k\":1,\"k\":[2],\"j\":{},\"k\":{\"k\":3,\"k\":4,\"k\":5},\"k\":6,\"j\":7,\"k\":8}]".into(), "{\"q\":{\"q\":{\"q\":1,\"q\":2,\"q\":3,\"q\":4},\"q\":5,\"q\":6},\"q\":7,\"r\":8,\"q\":9}".into()];
     let n = if thorough { 30_000 } else { 4_000 };
     fn gen(rng: &mut Rng, depth: usize, out: &mut String) {
         let ws = ["", " ", "\n "];
         match rng.below(if depth == 0 { 4 } else { 7 }) {
             0 => out.push_str("null"), 1 => out.push_str("true"), 2 => out.push_str("-1.5e3"), 3 => out.push_str("\"\u{e9}\\n\""),
             4 | 5 => { out.push('['); out.push_str(ws[rng.below(3)]); let m = rng.below(4); for i in 0..m { if i > 0 { out.push(','); out.push_str(ws[rng.below(3)]); } gen(rng, depth - 1, out); out.push_str(ws[rng.below(3)]); } out.push(']'); }
-            _ => { out.push('{'); out.push_str(ws[rng.below(3)]); let m = rng.below(4); for i in 0..m { if i > 0 { out.push(','); out.push_str(ws[rng.below(3)]); } out.push_str(["\"a\"", "\"b\"", "\"\u{1F600}\""][rng.below(3)]); out.push_str(ws[rng.below(3)]); out.push(':'); out.push_str(ws[rng.below(3)]); gen(rng, depth - 1, out); out.push_str(ws[rng.below(3)]); } out.push('}'); }
+            _ => { out.push('{'); out.push_str(ws[rng.below(3)]); let m = if rng.below(4) == 0 { rng.below(8) } else { rng.below(4) }; for i in 0..m { if i > 0 { out.push(','); out.push_str(ws[rng.below(3)]); } out.push_str(["\"a\"", "\"b\"", "\"\u{1F600}\""][rng.below(3)]); out.push_str(ws[rng.below(3)]); out.push(':'); out.push_str(ws[rng.below(3)]); gen(rng, depth - 1, out); out.push_str(ws[rng.below(3)]); } out.push('}'); }
         }
     }
     for _ in 0..n { let mut s = String::new(); s.push_str([" ", ""][rng.below(2)]); gen(&mut rng, 3, &mut s); docs.push(s); }
